@@ -289,6 +289,13 @@ def r6_periods(ctx):
     ctx.check(tuple(apl) == tuple(pref), PERIODIC + ":accum_period_lengths", "prefix-sums",
               "accum_period_lengths %s are not the prefix sums %s" % (apl, pref))
     ctx.check(tuple(pl) == (2, 8, 8, 18, 18, 32, 32), PERIODIC + ":period_lengths", "standard-periods", "period lengths %s" % (pl,))
+    groups = env.get("groups")
+    if groups is None:
+        raise AnalysisError("cannot fold periodic.groups")
+    want = {1: (1, 3, 11, 19, 37, 55, 87), 2: (4, 12, 20, 38, 56, 88), 13: (5, 13, 31, 49, 81, 113), 14: (6, 14, 32, 50, 82, 114),
+            15: (7, 15, 33, 51, 83, 115), 16: (8, 16, 34, 52, 84, 116), 17: (9, 17, 35, 53, 85, 117), 18: (2, 10, 18, 36, 54, 86, 118)}
+    for g, zs in want.items():
+        ctx.check(tuple(groups.get(g, ())) == zs, PERIODIC + ":groups", "group:%d" % g, "group %d is %s; the periodic table has %s" % (g, groups.get(g), zs))
 
 
 RULES = [
@@ -297,7 +304,7 @@ RULES = [
     Rule("C14-R3", r3_mass_formula, 6, "mass = sum v*m[k-1] - v0*m_e; Substance.mass/molar_mass"),
     Rule("C14-R4", r4_lookup, 3, "atomic_number normalises case for both lookups"),
     Rule("C14-R5", r5_mass_fractions, 4, "mass fractions: numerator term == summand of the total"),
-    Rule("C14-R6", r6_periods, 3, "period tables", tier="thorough"),
+    Rule("C14-R6", r6_periods, 11, "period and group tables", tier="thorough"),
 ]
 
 MUTANTS = [
@@ -319,6 +326,8 @@ MUTANTS = [
 
 MUTANTS.append(Mutant("weight-older-revision-Yb", [(PERIODIC, '"Ytterbium", 173.045, 0.010', '"Ytterbium", 173.054, 0.005')], "C14-R1", "Z=70"))
 MUTANTS.append(Mutant("weight-last-digits-Zn", [(PERIODIC, '"Zinc", 65.38', '"Zinc", 65.83')], "C14-R1", "Z=30"))
+
+MUTANTS.append(Mutant("alkali-group-offset", [(PERIODIC, "groups[1] = (1,) + tuple(x + 1 for x in accum_period_lengths[:-1])", "groups[1] = (1,) + tuple(x + 1 for x in accum_period_lengths[1:])")], "C14-R6", "group:1"))
 
 TWINS = [
     Twin("electron-mass-more-digits", [(PERIODIC, "mass -= v * 5.489e-4", "mass -= v * 5.48579909e-4")]),
